@@ -74,7 +74,7 @@ def run(ctx):
     # ---- H1 --------------------------------------------------------------------
     errs = []
 
-    def on_error(rule, fname, node, msg, extracted="", expected=""):
+    def on_error(rule, fname, node, msg, extracted="", expected="", construct=None):
         errs.append((rule, fname, node, msg, extracted, expected))
 
     rc.lk.check_module(mod, on_error, lambda *a, **k: None)
@@ -237,7 +237,7 @@ def _graham(rc: RuleCtx):
     ev = rc.new_eval()
     ev.no_inline.add("convex_hull._sort_points")
     pts = ev.point("points", True)
-    ev.len_map = {"points": sym("n"), "stack": sym("S"), "sorted_points": sym("m")}
+    ev.len_map = {"points": sym("n"), "stack": sym("S")}
     fors = [st for st in fi.node.body if isinstance(st, ast.For)]
     if len(fors) != 1:
         raise AnalysisError("graham_scan: expected one scan loop")
@@ -253,7 +253,12 @@ def _graham(rc: RuleCtx):
         return
     sp = ev.point("sp", True)
     ev.len_map["sp"] = sym("m")
-    env = {"points": pts, spname: sp, "stack": ev.symbol("stack", True)}
+    # the hull stack: the list popped inside the popping loop
+    pops = [c for c in ast.walk(w) if isinstance(c, ast.Call) and isinstance(c.func, ast.Attribute) and c.func.attr == "pop" and isinstance(c.func.value, ast.Name)]
+    if len(pops) != 1:
+        raise AnalysisError("graham_scan: expected one pop in the popping loop")
+    stk = pops[0].func.value.id
+    env = {"points": pts, spname: sp, stk: ev.symbol("stack", True)}
     # element p = sorted_points[i]; stack holds points
     i = ev.symbol(loop.target.id)
     env[loop.target.id] = i
@@ -275,7 +280,7 @@ def _graham(rc: RuleCtx):
 
     class Sub(ast.NodeTransformer):
         def visit_Subscript(self, node):
-            if isinstance(node.value, ast.Name) and node.value.id == "stack":
+            if isinstance(node.value, ast.Name) and node.value.id == stk:
                 t = ast.unparse(node.slice)
                 if t == "-2":
                     return ast.copy_location(ast.Name(id="__s2", ctx=ast.Load()), node)
@@ -290,9 +295,11 @@ def _graham(rc: RuleCtx):
     env2 = dict(env)
     env2["__s2"], env2["__s1"] = s2, s1
     test = fr.cond(test_ast, env2)
-    p = env.get("p")
+    want_p = Vec([anf.opaque("at", c, i, array=False) for c in sp.items], "point")
+    ps = [v for v in env.values() if isinstance(v, Vec) and v.kind == "point" and veq(v, want_p)]
+    p = ps[0] if ps else None
     if not isinstance(p, Vec):
-        raise AnalysisError("graham_scan: current point not found")
+        raise AnalysisError("graham_scan: current point sorted_points[i] not found")
     orient = (s1.items[0] - s2.items[0]) * (p.items[1] - s2.items[1]) - (p.items[0] - s2.items[0]) * (s1.items[1] - s2.items[1])
     turn = canon_sign(orient, OPS[">="])
     turn_strict = canon_sign(orient, OPS[">"])
@@ -307,7 +314,7 @@ def _graham(rc: RuleCtx):
         res.violation("H5", mod, fi.name, w, "graham_scan does not pop exactly the non-clockwise turns (orient(s[-2], s[-1], p) >= 0)", _short(got, 200), _short(turn, 200),
                       construct="graham turn predicate")
     benv = dict(env)
-    _check_dominated(rc, fi, w, "stack", ev, benv)
+    _check_dominated(rc, fi, w, stk, ev, benv)
     # seeds and range
     ra = range_args(loop)
     fr3 = Frame(ev, fi, 0)
